@@ -26,6 +26,7 @@ import (
 	"sort"
 	"strconv"
 	"strings"
+	"time"
 
 	"github.com/opencontainers/go-digest"
 	ocispec "github.com/opencontainers/image-spec/specs-go/v1"
@@ -352,6 +353,32 @@ func basePath(sc *Scenario) string {
 	return "/v2/" + sc.Repo + "/referrers/" + subject.String()
 }
 
+// ---------- watchdog: a call into the implementation that does not come back ----------
+
+var errHang = errors.New("the implementation call did not return within the watchdog time")
+
+const watchdog = 20 * time.Second
+
+// guarded runs one call into the implementation; a wedge (lock, channel, endless loop) becomes errHang.
+func guarded(f func() error) error {
+	done := make(chan error, 1)
+	go func() { done <- f() }()
+	select {
+	case err := <-done:
+		return err
+	case <-time.After(watchdog):
+		return errHang
+	}
+}
+
+// hangExit records the hang as an oracle failure with its replay and ends the run at once (the
+// wedged goroutine still owns the case's data; nothing else is written after this point).
+func hangExit(id string, rep any, what string) {
+	run.OracleFail(id, "hang", what+": no return within "+watchdog.String(), rep)
+	run.Finish()
+	os.Exit(4)
+}
+
 func indexDoc(items []fakereg.Item, size int) []byte {
 	ms := make([]ocispec.Descriptor, len(items))
 	for i, it := range items {
@@ -418,12 +445,12 @@ func execute(sc *Scenario) (reg *fakereg.Registry, pages [][]fakereg.Item, logAt
 			panic(e)
 		}
 		r.PlainHTTP, r.Client, r.RepositoryListPageSize, r.MaxMetadataBytes = true, reg.Client(), sc.N, sc.Limit
-		err = r.Repositories(ctx, sc.Last, strs)
+		err = guarded(func() error { return r.Repositories(ctx, sc.Last, strs) })
 	case "T":
 		reg.Tags[sc.Repo] = sc.Items
 		r := &remote.Repository{Reference: registry.Reference{Registry: host, Repository: sc.Repo}, PlainHTTP: true,
 			Client: reg.Client(), TagListPageSize: sc.N, MaxMetadataBytes: sc.Limit}
-		err = r.Tags(ctx, sc.Last, strs)
+		err = guarded(func() error { return r.Tags(ctx, sc.Last, strs) })
 	case "R":
 		reg.Referrers[sc.Repo+"@"+subject.String()] = sc.Items
 		r := &remote.Repository{Reference: registry.Reference{Registry: host, Repository: sc.Repo}, PlainHTTP: true,
@@ -436,14 +463,18 @@ func execute(sc *Scenario) (reg *fakereg.Registry, pages [][]fakereg.Item, logAt
 			r.SetReferrersCapability(true)
 		}
 		desc := ocispec.Descriptor{MediaType: ocispec.MediaTypeImageManifest, Digest: subject, Size: 7}
-		err = r.Referrers(ctx, desc, sc.AT, func(ds []ocispec.Descriptor) error {
-			p := make([]fakereg.Item, len(ds))
-			for i, d := range ds {
-				p[i] = fakereg.Item{Name: d.Digest.String(), ArtifactType: d.ArtifactType}
-			}
-			return onPage(p)
+		err = guarded(func() error {
+			return r.Referrers(ctx, desc, sc.AT, func(ds []ocispec.Descriptor) error {
+				p := make([]fakereg.Item, len(ds))
+				for i, d := range ds {
+					p[i] = fakereg.Item{Name: d.Digest.String(), ArtifactType: d.ArtifactType}
+				}
+				return onPage(p)
+			})
 		})
-		finalState = remote.VerifReferrersState(r)
+		if !errors.Is(err, errHang) {
+			finalState = remote.VerifReferrersState(r)
+		}
 	default:
 		panic("kind " + sc.Kind)
 	}
@@ -581,6 +612,9 @@ func listCase(sc *Scenario) {
 	sc.Op = "list"
 	id := run.NewID()
 	reg, pages, logAtFail, err := execute(sc)
+	if errors.Is(err, errHang) {
+		hangExit(id, sc, "listing "+sc.Kind)
+	}
 	outcome := classify(err)
 	fail := func(sig, msg string) {
 		// known finding: parseLink takes the first link-value whatever its relation type.  Only the
@@ -1374,6 +1408,9 @@ func wrapCase(sc *Scenario) {
 	}
 	id := run.NewID()
 	reg, pages, _, err := execute(sc)
+	if errors.Is(err, errHang) {
+		hangExit(id, sc, "Referrers")
+	}
 	outcome := classify(err)
 	state := []string{"U", "S", "N"}[finalState]
 	var api []*fakereg.Exchange
@@ -1614,17 +1651,22 @@ func tagSchemaCase(ts *TagSchema) {
 	r.SetReferrersCapability(false)
 	var pages [][]fakereg.Item
 	desc := ocispec.Descriptor{MediaType: ocispec.MediaTypeImageManifest, Digest: subject, Size: 7}
-	err := r.Referrers(context.Background(), desc, ts.AT, func(ds []ocispec.Descriptor) error {
-		p := make([]fakereg.Item, len(ds))
-		for i, d := range ds {
-			p[i] = fakereg.Item{Name: d.Digest.String(), ArtifactType: d.ArtifactType}
-		}
-		pages = append(pages, p)
-		if ts.CbFail == len(pages)-1 {
-			return errInjected
-		}
-		return nil
+	err := guarded(func() error {
+		return r.Referrers(context.Background(), desc, ts.AT, func(ds []ocispec.Descriptor) error {
+			p := make([]fakereg.Item, len(ds))
+			for i, d := range ds {
+				p[i] = fakereg.Item{Name: d.Digest.String(), ArtifactType: d.ArtifactType}
+			}
+			pages = append(pages, p)
+			if ts.CbFail == len(pages)-1 {
+				return errInjected
+			}
+			return nil
+		})
 	})
+	if errors.Is(err, errHang) {
+		hangExit(id, ts, "Referrers (tag schema)")
+	}
 	outcome := classify(err)
 	if errors.Is(err, errdef.ErrSizeExceedsLimit) {
 		outcome = "ErrSize"
@@ -1831,11 +1873,16 @@ func ociCase(ops []ociOp, last string, reopen bool) {
 		Tags(ctx context.Context, last string, fn func(tags []string) error) error
 	}
 	list := func(l tagLister) (got []string, calls int, err error) {
-		err = l.Tags(ctx, last, func(tags []string) error {
-			calls++
-			got = append(got, tags...)
-			return nil
+		err = guarded(func() error {
+			return l.Tags(ctx, last, func(tags []string) error {
+				calls++
+				got = append(got, tags...)
+				return nil
+			})
 		})
+		if errors.Is(err, errHang) {
+			hangExit(id, rep, "oci Tags")
+		}
 		return
 	}
 	got, calls, err := list(st)
